@@ -48,18 +48,47 @@ def splits(n, rnd, limit):
     return out
 
 
+def binder_sequences():
+    """a top-level name, then a construct that binds the same name locally (to another value) and runs, then
+    reads of the name: the local binding must be gone on both routes, wherever the inputs are cut"""
+    binders = [
+        "r := if v: int = src[0] { v * 2 } else { 0 }",
+        "r := if v: float = src[1] { 1 } else { 0 }",
+        "while v: int = nx() { w += v }",
+        "for v in [10, 20]~ { w += v }",
+        "r := match src[0] { v: int => { v + 1 } => { 0 } }",
+        "{ v := 99; w += v }",
+        "(p, q) := { (v, z) := (5, 6); (v + z, z) }",
+        "g := (v: int) -> int { return v + 1 }; r := g(41)",
+        "m := mod { v := 77 }",
+        "r := [10, 20]~ @ (v: int) -> int { return v + 1 } $]",
+        "r := [10, 20]~ $0 (v: int, c: int) -> int { return v + c }",
+        "loop { v := 5; w += v; break }",
+    ]
+    out = []
+    for first in ("v := 1", "v := \"top\"", "v := mut 1"):
+        for b in binders:
+            texts = [first, "src := [42, 0.5]", "w := mut 0", "cnt := mut 0",
+                     "nx := () -> int|() { cnt += 1; if *cnt < 3 { return *cnt }; return () }", b, "v", "t := (v, *w)"]
+            out.append((texts, "v,r,t,p,q"))
+    return out
+
+
 def run(res, tier, seed, broken_model):
     rnd = random.Random(seed)
     nseq = 60 if tier == "quick" else 1500
     lines, metas = [], []
+    sequences = list(binder_sequences())
     for _ in range(nseq):
         n = rnd.randint(2, 7)
         try:
             stmts, names = gen_sequence(rnd, n)
         except Exception:
             continue
-        texts = [A.src(s) for s in stmts]
-        nm = ",".join(names)
+        sequences.append(([A.src(s) for s in stmts], ",".join(names)))
+    nseq = len(sequences)
+    for texts, nm in sequences:
+        n = len(texts)
         # batch reference: every prefix as ONE input
         for k in range(1, n + 1):
             lines.append("repl\tstd\t%s\t%s" % (nm, esc_field("; ".join(texts[:k]))))
